@@ -32,7 +32,12 @@ impl AtRule {
         buf.do_indent_no_nl();
         write!(buf, "@{}", self.name)?;
         if !self.args.is_null() {
-            write!(buf, " {}", self.args.format(buf.format()))?;
+            let args = self.args.format(buf.format()).to_string();
+            if buf.format().is_compressed() {
+                write!(buf, " {}", args.replace('\n', " "))?;
+            } else {
+                write!(buf, " {args}")?;
+            }
         }
         if let Some(body) = &self.body {
             if let [AtRuleBodyItem::Comment(c)] = &body[..] {
